@@ -196,7 +196,9 @@ var hostileQueries = []string{"%zz", "q", "q=", "q=1&q=2", "=", "&&&", "q[=1", "
 
 // N = parameter name, P = one of its declared properties
 var hostileDeep = []string{"N[P][-1]=1", "N[P][-1]=1&N[P][1]=2", "N[P][1]=1", "N[P][3]=1&N[P][0]=2", "N[P][0]=1&N[P][0]=2", "N[P][00]=1&N[P][0]=2", "N[P][0][0]=1", "N[P][0][x]=1&N[P][1]=2", "N[P][x]=1", "N[P][]=1", "N[P]=1&N[P][0]=2", "N[P][+1]=1", "N[P][1e1]=1", "N[P][0x1]=1", "N[P][-0]=1", "N[P][9223372036854775808]=1", "N[-1]=1", "N[P][0][-1]=1", "N[P][a][-1]=1&N[P][a][0]=1", "N[P]", "N[P][", "N[P]]=1", "N[][P]=1", "N[P][0]=&N[P][1]"}
-var hostileCT = []string{"", "application/json;;;", "multipart/form-data", "multipart/form-data; boundary=", "multipart/form-data; boundary=x", "text/plain; charset=\"", "/", "a/b/c", "application/json; charset=utf-8", "APPLICATION/JSON", "application/x-www-form-urlencoded; charset=x", "*/*", "application/*"}
+var hostileCT = []string{"", "application/json;;;", "multipart/form-data", "multipart/form-data; boundary=", "multipart/form-data; boundary=x", "text/plain; charset=\"", "/", "a/b/c", "application/json; charset=utf-8", "APPLICATION/JSON", "application/x-www-form-urlencoded; charset=x", "*/*", "application/*",
+	// a slash only inside the parameters, no slash at all, separators at the edges
+	`json; profile="http://example.com/x"`, "text;q=a/b", "x;/", ";/", "/;", "a;b/c;d/e", "text", ";", "application/json;", " application/json", "application/json ;charset=utf-8", "application//json", "/json", "application/"}
 
 // GenValue draws a value for a (raw, possibly referencing) schema.
 func GenValue(t *rapid.T, doc M, schema any) any {
